@@ -459,6 +459,7 @@ int main(int argc, char **argv) {
 #endif
     setup_objects();
     if (mc_replay) return do_replay();
+    int core = 0; for (int i = 1; i < argc; i++) if (!strcmp(argv[i], "--core")) core = 1;   /* C17's steps on the option builds: automaton product and token strings only */
 
     /* reference automata: reachable states, classes, characterisation set */
     long l2shards = 0; int states = 0, classes = 0, maxw = 0;
@@ -482,12 +483,14 @@ int main(int argc, char **argv) {
     /* L2 first (cheap, and the binding step), then L1 with iterated bound, then L3 and sweeps */
     mc_parallel("L2:states x 255 bytes x tokens^<=3 (+pairs)", l2shards, l2_shard, NULL);
 #ifdef C03
+    if (!core) {
     mc_parallel("U1+U2: all 1- and 2-byte sequences x 5 contexts", 255, u12_shard, NULL);
     mc_parallel("U3: all 3-byte sequences x 5 contexts", 255 * 255, u3_shard, NULL);
     mc_parallel("U4: lead x boundary continuation bytes x 5 contexts", 255, u4_shard, NULL);
     mc_parallel("every non-ASCII scalar, single and doubled, in 34 surroundings (a.X.b among them)", 0x110000 / 0x1000, scalar_shard, NULL);
+    }
 #endif
-    { huge_lengths(); size_t mx = 0; for (int i = 0; i < HUGE_N; i++) if (HUGE_L[i] > mx) mx = HUGE_L[i];
+    if (!core) { huge_lengths(); size_t mx = 0; for (int i = 0; i < HUGE_N; i++) if (HUGE_L[i] > mx) mx = HUGE_L[i];
       huge_alloc(mx); char nmh[160]; snprintf(nmh, sizeof nmh, "huge: %d shapes (feature at the start / at the end) x %d lengths k*2^8+d, k*2^16+d%s", NHSH, HUGE_N, mc_thorough ? ", 2^24+d, 2^31+d, 2^32+d" : ", 2^31+5");
       mc_parallel(nmh, (long)HUGE_N * NHSH * NMODES, huge_shard, NULL); munmap(HB, HBCAP); }
     int n1 = mc_thorough ? 8 : 6;
